@@ -211,7 +211,7 @@ def decide(idx, m, rel, text, args, base_fast, base_wide):
         return rec
     root, src = overlay(rel, new_text)
     try:
-        if args.fast_tests:
+        if args.fast_tests and not args.check_first:
             p, f = pytest_sets(src, args.fast_tests, 3)
             if p is None or p != base_fast[0] or f != base_fast[1]:
                 rec["verdict"] = "killed-by-tests"
@@ -225,6 +225,11 @@ def decide(idx, m, rel, text, args, base_fast, base_wide):
             rec["verdict"] = "harness-error"
             rec["err"] = err
             return rec
+        if args.fast_tests and args.check_first:
+            p, f = pytest_sets(src, args.fast_tests, 3)
+            if p is None or p != base_fast[0] or f != base_fast[1]:
+                rec["verdict"] = "killed-by-tests"
+                return rec
         if args.wide_tests:
             p, f = pytest_sets(src, args.wide_tests, 4)
             if p is None or p != base_wide[0] or f != base_wide[1]:
@@ -253,6 +258,7 @@ def main():
     ap.add_argument("--wide-tests", default="")
     ap.add_argument("--out", default="")
     ap.add_argument("--lines", help="a:b restrict to this line range")
+    ap.add_argument("--check-first", action="store_true", help="run the check before the fast tests (slow test files)")
     args = ap.parse_args()
     rel = args.file
     text = open(os.path.join(SRC, "biotite", rel)).read()
